@@ -371,6 +371,8 @@ class ViolationGenerator:
 
         # Apply inline ignore directives via IgnoreChecker
         violations = self._ignore_checker.filter_violations(violations)
+        # File contents are cached per call only: a later run must see edited files
+        self._ignore_checker.clear_cache()
 
         return violations
 
